@@ -1,5 +1,6 @@
 """Rules shared by several properties."""
 from .. import effects, mir, util
+from ..facts import AnchorError
 
 
 def self_comparison_rule(F, r, module_prefixes, what):
@@ -88,6 +89,54 @@ def lints_rule(F, r, module_prefixes, what):
             r.fail(f"{util.short_fn(fid)}: {kind}@{txt.split('`')[1]}", txt + f": a copy-paste / wrong-variable slip in the {what}", F.loc(fid, ln))
     r.ok("sites scanned", f"{ncmp} comparisons and {ncall} multi-argument calls in {nfn} bodies: no value compared with, subtracted from, divided by or passed alongside itself")
     return ncmp + ncall
+
+
+OPP = {"Add": ("Sub",), "Sub": ("Add",), "AddAssign": ("Sub",), "SubAssign": ("Add",), "Mul": ("Div",), "Div": ("Mul",), "Neg": ()}
+
+
+def operator_agreement(F, r, module_prefixes=("vrp_", "rosomaxa")):
+    """every `impl Add/Sub/Mul/Div[Assign]` computes with its own operator family: `+` never subtracts, `-` never adds"""
+    n = 0
+    for fid, fn in sorted(F.fns.items()):
+        it = fn.get("impl_trait", "")
+        if fn["kind"] == "Closure" or "::promoted[" in fid or not it.startswith("core::ops::arith::"):
+            continue
+        if not fid.lstrip("<").startswith(tuple(module_prefixes)):
+            continue
+        tr = it.split("::")[-1].split("<")[0]
+        if tr not in OPP:
+            continue
+        fam = [g for g in F.fns if g == fid or g.startswith(fid + "::")]
+        own = 0
+        bad = None
+        for g in fam:
+            gfn = F.fns[g]
+            for bi, si, st in mir.stmts(gfn):
+                if st["r"]["k"] == "bin":
+                    op = st["r"]["op"].replace("WithOverflow", "").replace("Unchecked", "")
+                    if op in OPP[tr]:
+                        bad = (g, st.get("ln"), op)
+                    elif op == tr.replace("Assign", ""):
+                        own += 1
+            for bi, t in mir.calls(gfn):
+                c = t["callee"]
+                if c.startswith("core::ops::arith::"):
+                    op = c.split("::")[-2].split("<")[0] if c.split("::")[-1] in ("add", "sub", "mul", "div", "add_assign", "sub_assign") else ""
+                    if op.replace("Assign", "") in OPP[tr]:
+                        bad = (g, t["ln"], op)
+                    elif op.replace("Assign", "") == tr.replace("Assign", ""):
+                        own += 1
+        n += 1
+        name = util.short_fn(fid)
+        if bad:
+            r.fail(name, f"`impl {tr}` computes with `{bad[2]}`: the operator does the opposite of what its callers mean (loads, costs and statistics are combined with + and -)", F.loc(bad[0], bad[1]))
+        elif own == 0:
+            r.fail(name, f"`impl {tr}` contains no `{tr.replace('Assign', '')}` operation at all", F.loc(fid))
+        else:
+            r.ok(name, f"{own} `{tr.replace('Assign', '')}` operation(s), none of the opposite family")
+    if n < 8:
+        raise AnchorError(f"only {n} arithmetic operator impls found")
+    return n
 
 
 def anchor_modules(prop):
